@@ -133,6 +133,40 @@ class PyFn(object):
         return "PyFn(%s)" % self.kind
 
 
+class ObjDict(object):
+    """obj.__dict__ of a heap object: a live view of its instance attributes"""
+    __slots__ = ("ref",)
+    abs_type = "dict"
+
+    def __init__(self, ref):
+        self.ref = ref
+
+    def __repr__(self):
+        return "ObjDict(%r)" % (self.ref,)
+
+    def _fields(self, st):
+        return st.obj(self.ref).fields
+
+    def abs_item(self, interp, st, idx, node):
+        f = self._fields(st)
+        if isinstance(idx, str) and idx in f and not idx.startswith("@"):
+            return f[idx]
+        if isinstance(idx, str):
+            from .absint import Unsupported
+            raise Unsupported("obj.__dict__[%r]: no such instance attribute at %s" % (idx, interp.loc(node)))
+        return Top("__dict__[]", False)
+
+    def abs_setitem(self, interp, st, idx, v, node):
+        if not isinstance(idx, str):
+            from .absint import Unsupported
+            raise Unsupported("obj.__dict__[<non-constant>] = ... at %s" % interp.loc(node))
+        st.wobj(self.ref).fields[idx] = v
+
+    def abs_contains_in(self, st, key):
+        f = self._fields(st)
+        return isinstance(key, str) and key in f and not key.startswith("@")
+
+
 class ModuleVal(object):
     __slots__ = ("mod",)        # index.Module or external dotted name (str)
 
@@ -263,6 +297,8 @@ def _vkey_slow(v, ren=None):
         return ("AS", v.name)
     if isinstance(v, PyFn):
         return ("PF", v.kind, vkey(v.parts, ren))
+    if isinstance(v, ObjDict):
+        return ("OD", vkey(v.ref, ren))
     if isinstance(v, LenOf):
         return ("LEN", v.seq)
     if isinstance(v, SymLen):
@@ -314,6 +350,8 @@ def refs_in(v, out):
         refs_in(v.self_val, out)
     elif isinstance(v, PyFn):
         refs_in(v.parts, out)
+    elif isinstance(v, ObjDict):
+        refs_in(v.ref, out)
     elif isinstance(v, SuperVal):
         refs_in(v.self_val, out)
     elif isinstance(v, Exc):
